@@ -561,6 +561,20 @@ def eval_C18(item):
             if not ok_:
                 res['pred'].append('with custom positions a segment of structure %d is drawn at x=%r' % (sid_, xs_))
                 break
+    # sorting again after custom positions restores the sorted layout (same arguments as the sort before)
+    if keyf is not None or item['reverse']:
+        cp2 = d.plotter()
+        cp2.sort(sort_key=keyf, reverse=item['reverse'])
+        cp2.set_custom_positions(lambda s_: 2.0 * s_.idx - 1.0)
+        cp2.sort(sort_key=keyf, reverse=item['reverse'])
+    else:
+        cp2 = d.plotter()
+        cp2.set_custom_positions(lambda s_: 2.0 * s_.idx - 1.0)
+        cp2.sort()
+    pos2 = dict((int(s_.idx), float(x_)) for s_, x_ in cp2._cached_positions.items())
+    if pos2 != pos:
+        res['pred'].append('sort() after set_custom_positions does not restore the sorted layout: %r, a fresh plotter gives %r'
+                           % (sorted(pos2.items())[:8], sorted(pos.items())[:8]))
     # a selected structure with / without subtree, given as object, id, list
     ids = sorted(structs)
     if not ids:
